@@ -42,7 +42,7 @@ def gen_genome(rng, k, prefix: bytes):
 	for i in range(nc):
 		lc = rng.random()
 		if lc < 0.1:
-			n = rng.choice([0, 1, len(P) + k - 1, len(P) + k])
+			n = rng.choice([0, 1, len(P) + k - 1, len(P) + k, max(k - 1, 1), max(k - 2, 1), k // 2 + 1, len(P)])   # incl. shorter than k, shorter than prefix+k
 		elif lc < 0.8:
 			n = rng.randint(30, 400)
 		else:
@@ -55,7 +55,7 @@ def gen_genome(rng, k, prefix: bytes):
 		if n >= len(P) and rng.random() < 0.6:
 			s[n - len(P):] = P
 		if n >= len(P) and rng.random() < 0.4:
-			s[:len(P)] = rcP   # reverse strand: prefix ending flush at the contig start
+			s[:len(P)] = rcP if rng.random() < 0.6 else P   # prefix (either strand) flush with the contig start
 		if n >= len(P) + k and rng.random() < 0.3:
 			s[n - len(P) - k:n - k] = P  # match flush with the end
 		contigs.append(bytes(s[:n]))
